@@ -563,7 +563,7 @@ class Abs:
                 return self.getters[attr](base)
             if attr in base.attrs:
                 v = base.attrs[attr]
-                if isinstance(v, tuple) and len(v) == 2 and v[0] == "alias":
+                if isinstance(v, tuple) and len(v) == 2 and isinstance(v[0], str) and v[0] == "alias":
                     return base.attrs.get(v[1])      # read-only property over another attribute
                 return v
             m = "%s.%s" % (base.cls, attr)
@@ -593,12 +593,12 @@ class Abs:
             return ("dictm", attr, base)
         if isinstance(base, AList) and attr in base.extra:
             v = base.extra[attr]
-            return ("bound", v[1], base) if isinstance(v, tuple) and v and v[0] == "method" else v
+            return ("bound", v[1], base) if isinstance(v, tuple) and v and isinstance(v[0], str) and v[0] == "method" else v
         if isinstance(base, list) and attr in ("append", "extend", "index", "copy", "tolist", "pop", "insert", "remove", "reverse", "count"):
             return ("listm", attr, base)
         if isinstance(base, str) and attr in ("strip", "lower", "upper", "split", "format", "join", "startswith", "endswith", "replace"):
             return ("strm", attr, base)
-        if isinstance(base, tuple) and len(base) == 2 and base[0] == "pymodule":
+        if isinstance(base, tuple) and len(base) == 2 and isinstance(base[0], str) and base[0] == "pymodule":
             sub = self._sub({}, None, base[1])
             g = sub._global(attr)
             if g is _MISSING:
@@ -606,7 +606,7 @@ class Abs:
                     raise Undecided("class %s.%s used as a value" % (base[1].modname, attr))
                 raise Raised("AttributeError(module %s has no attribute %s)" % (base[1].modname, attr))
             return g
-        if isinstance(base, tuple) and base and base[0] in ("closure", "lambda", "func", "py") and attr == "__get__":
+        if isinstance(base, tuple) and base and isinstance(base[0], str) and base[0] in ("closure", "lambda", "func", "py") and attr == "__get__":
             return ("py", lambda obj, *a: ("boundclosure", base, obj))      # a function bound to an instance
         if isinstance(base, tuple) and attr in ("index", "count"):
             return ("listm", attr, list(base))
@@ -785,7 +785,7 @@ class Abs:
             args[0].attrs[args[1]] = args[2]
             return None
         if dn == "callable":
-            return isinstance(args[0], tuple) and bool(args[0]) and args[0][0] in ("callable", "lambda", "bound", "sampler", "py", "func", "imeth", "closure", "method", "boundclosure")
+            return isinstance(args[0], tuple) and bool(args[0]) and isinstance(args[0][0], str) and args[0][0] in ("callable", "lambda", "bound", "sampler", "py", "func", "imeth", "closure", "method", "boundclosure")
         if dn == "print" or (dn is not None and (dn.startswith("logging.") or dn in ("warnings.warn", "logger.debug", "logger.info", "logger.warning"))):
             return None
         if dn in ("int", "float"):
@@ -843,7 +843,7 @@ class Abs:
         return self.apply(f, args, kw)
 
     def apply(self, f, args, kw):
-        if isinstance(f, tuple) and f:
+        if isinstance(f, tuple) and f and isinstance(f[0], str):
             tag = f[0]
             if tag == "callable":
                 if f[1] in self.summaries:
@@ -961,9 +961,9 @@ class Abs:
             if isinstance(t, ast.Name) and name not in self.types and t.id in self.env:
                 val = self.env[t.id]
                 vals = list(val) if isinstance(val, (list, tuple)) and not (len(val) == 2 and val[0] in ("callable", "py")) else [val]
-                vals = [x[1] if isinstance(x, tuple) and len(x) == 2 and x[0] == "py" else x for x in vals]
+                vals = [x[1] if isinstance(x, tuple) and len(x) == 2 and isinstance(x[0], str) and x[0] == "py" else x for x in vals]
                 vals = [("callable", x._abs_type) if isinstance(getattr(x, "_abs_type", None), str) else x for x in vals]
-                if vals and all(isinstance(x, tuple) and len(x) == 2 and x[0] == "callable" and isinstance(x[1], str) for x in vals):
+                if vals and all(isinstance(x, tuple) and len(x) == 2 and isinstance(x[0], str) and x[0] == "callable" and isinstance(x[1], str) for x in vals):
                     names.extend(x[1] for x in vals)
                     continue
             names.append(name)
